@@ -496,7 +496,7 @@ func (r *runner) faultSearch(o op, sp searchSpec, perShard [][]hit, ans []bool, 
 		if len(e) == 0 {
 			answers = append(answers, "-")
 		} else {
-			answers = append(answers, strings.Join(e, ","))
+			answers = append(answers, strings.Join(e, ";"))
 		}
 	}
 	var rh []hit
@@ -505,16 +505,9 @@ func (r *runner) faultSearch(o op, sp searchSpec, perShard [][]hit, ans []bool, 
 	}
 	impl := "err"
 	if err == nil {
-		impl = canon(rh, full, sp.mode)
+		impl = canon(rh, full, sp)
 	}
-	var od []string
-	for _, d := range sp.desc {
-		od = append(od, vh.B01(d))
-	}
-	opts := "-"
-	if len(od) > 0 {
-		opts = strings.Join(od, ",")
-	}
+	opts := sp.optsTok()
 	line += fmt.Sprintf(" mode=%s opts=%s answers=%s", sp.mode, opts, strings.Join(answers, "|"))
 	r.emit("search", line, impl, multi && len(full) > 0)
 	sig := fmt.Sprintf("search:fault=%s:", o.script)
@@ -526,7 +519,7 @@ func (r *runner) faultSearch(o op, sp searchSpec, perShard [][]hit, ans []bool, 
 			r.fail(sig+"limit", fmt.Sprintf("search returned %d results for limit %d", len(rh), o.limit))
 		}
 		seen := map[int]bool{}
-		for i, h := range rh {
+		for _, h := range rh {
 			if seen[h.id] {
 				r.fail(sig+"duplicate", fmt.Sprintf("point %d is returned twice", h.id))
 			}
@@ -536,9 +529,9 @@ func (r *runner) faultSearch(o op, sp searchSpec, perShard [][]hit, ans []bool, 
 			} else if f.enc() != h.enc() {
 				r.fail(sig+"altered", fmt.Sprintf("result %s differs from the shard's answer %s", h.enc(), f.enc()))
 			}
-			if i > 0 && cmpHits(rh[i-1], h, sp) > 0 {
-				r.fail(sig+"order", fmt.Sprintf("results %s and %s are out of order", rh[i-1].enc(), h.enc()))
-			}
+		}
+		if i, j, bad := outOfOrder(rh, sp); bad {
+			r.fail(sig+"order", fmt.Sprintf("result %s (position %d) is returned before %s (position %d), which must precede it", rh[i].enc(), i, rh[j].enc(), j))
 		}
 	}
 }
@@ -719,7 +712,7 @@ func genFaultScenario(rng *vh.Rng, idx int) []op {
 				o.ids = repeatSome(rng, o.ids, func(i int) int { return i })
 			}
 		default:
-			o = op{kind: "search", skind: vh.Pick(rng, []int{0, 1, 2, 4, 5, 6}), sarg: rng.Intn(64), limit: vh.Pick(rng, []int{2, 5, 10, 100})}
+			o = op{kind: "search", skind: vh.Pick(rng, []int{0, 1, 2, 4, 5, 6, 8, 9, 14}), sarg: rng.Intn(64), limit: vh.Pick(rng, []int{2, 5, 10, 100})}
 		}
 		o.entry, o.server = entry, victim
 		if o.kind != "route" && rng.Chance(70) {
